@@ -1095,6 +1095,13 @@ static void MPSreadCols(MPSInput& mps, const LPRowSetBase<Rational>& rset, const
       {
          if((idx = rnames.number(mps.field2())) < 0)
             mps.entryIgnored("Column", mps.field1(), "row", mps.field2());
+         // a column must not name a row twice: the column vector may hold every index only once
+         else if(vec.pos(idx) >= 0)
+         {
+            SPX_MSG_ERROR(std::cerr << "ERROR in COLUMNS: duplicate entry for row " << mps.field2()
+                          << " in column " << colname << std::endl;)
+            break;
+         }
          else if(val != 0)
             vec.add(idx, val);
       }
@@ -1119,6 +1126,13 @@ static void MPSreadCols(MPSInput& mps, const LPRowSetBase<Rational>& rset, const
          {
             if((idx = rnames.number(mps.field4())) < 0)
                mps.entryIgnored("Column", mps.field1(), "row", mps.field4());
+            // a column must not name a row twice: the column vector may hold every index only once
+            else if(vec.pos(idx) >= 0)
+            {
+               SPX_MSG_ERROR(std::cerr << "ERROR in COLUMNS: duplicate entry for row " << mps.field4()
+                             << " in column " << colname << std::endl;)
+               break;
+            }
             else if(val != 0)
                vec.add(idx, val);
          }
